@@ -5,6 +5,7 @@ package main
 import (
 	"errors"
 	"fmt"
+	"io"
 	"strings"
 	"time"
 
@@ -16,7 +17,8 @@ import (
 // Suite verifier (C01): the real Verifier.Run over in-memory pieces.
 //   op : verify pieces=<len>:<kind>,…    kind g = stored bytes hash to the piece hash; c = stored bytes corrupted
 //        (one bit); h = hash of other data; s = stored bytes one byte short of what was hashed (file padded);
-//        e = ReadAt fails
+//        e = ReadAt fails; t = the file is shorter than the piece (short read), the recorded hash is that of
+//        the bytes present followed by the previous piece's tail
 //   obs: bits=<0/1 string> err=<0|1>
 
 func init() {
@@ -32,12 +34,13 @@ func (f *vFile) ReadAt(p []byte, off int64) (int, error) {
 	if f.fail {
 		return 0, errors.New("injected read error")
 	}
+	// (as *os.File does: io.EOF at and beyond the end of the file)
 	if off >= int64(len(f.b)) {
-		return 0, errors.New("eof")
+		return 0, io.EOF
 	}
 	n := copy(p, f.b[off:])
 	if n < len(p) {
-		return n, errors.New("short")
+		return n, io.EOF
 	}
 	return n, nil
 }
@@ -61,8 +64,10 @@ func genVerifier(r *Rng, n int, tier string) []Case {
 				kind = "c"
 			case x < 82:
 				kind = "h"
-			case x < 92:
+			case x < 90:
 				kind = "s"
+			case x < 96 && i > 0:
+				kind = "t"
 			default:
 				kind = "e"
 			}
@@ -78,6 +83,7 @@ func execVerifier(ops []string) []string {
 	for _, op := range ops {
 		m := kv(op)
 		var pieces []piece.Piece
+		var prev []byte // what the previous piece's file holds
 		for i, t := range commaList(m["pieces"]) {
 			parts := strings.Split(t, ":")
 			ln := atoi(parts[0])
@@ -96,7 +102,22 @@ func execVerifier(ops []string) []string {
 				hash = sha1of(append(append([]byte(nil), content...), f.b[0]))
 			case "e":
 				f.fail = true
+			case "t":
+				// The file is shorter than the piece (truncated behind the client's back after it was opened): the read
+				// comes back short. The recorded hash is the hash of what a reader that ignores this would find in a
+				// buffer shared with the previous piece: the bytes that are there, then the previous piece's tail.
+				d := 1 + i%2
+				if d >= ln {
+					d = ln
+				}
+				stale := make([]byte, ln)
+				if i > 0 && len(prev) >= ln {
+					copy(stale, prev[:ln])
+				}
+				f.b = f.b[:ln-d]
+				hash = sha1of(append(append([]byte(nil), f.b...), stale[ln-d:]...))
 			}
+			prev = f.b
 			pieces = append(pieces, piece.Piece{Index: uint32(i), Length: uint32(ln), Hash: hash,
 				Data: filesection.Piece{{File: f, Offset: 0, Length: int64(ln)}}})
 		}
